@@ -208,6 +208,18 @@ def run(ctx: Ctx):
     TWICE = "from inline_snapshot import snapshot\n\n\ndef test_a():\n    assert [1, 2] == snapshot([2, 1])\n    assert 'abd' == snapshot('abc')\n"
     for fl in (("fix",), ("create", "fix", "trim", "update")):
         progs.append({"source": TWICE, "files": {"test_something.py": TWICE}, "flags": fl, "sites": [1, 2], "rich": False, "twice": True})
+    # `in` snapshots whose previous value is no list display (what fix writes depends on whether trim is approved too)
+    NONLIST = ("from inline_snapshot import snapshot\n\n\ndef test_a():\n    for x in (2, 3):\n        assert x in snapshot((1, 2))\n    for x in (5, 6):\n        assert x in snapshot({4, 5})\n"
+               "    assert 7 in snapshot([7, 8])\n")
+    for fl in (("fix", "trim"), ("fix",), ("trim",), ("create", "fix", "trim", "update")):
+        progs.append({"source": NONLIST, "files": {"test_something.py": NONLIST}, "flags": fl, "sites": [1, 2, 3], "rich": False})
+    # several files, one of which gets new code that uses HasRepr (it imports the name already): the other files are not touched beyond their own changes
+    IMPORTS = {"test_a_objects.py": ("from inline_snapshot import snapshot, HasRepr\n\n\nclass NoCode:\n    def __repr__(self):\n        return '<nocode>'\n\n    def __eq__(self, other):\n"
+                                     "        return True if isinstance(other, NoCode) else NotImplemented\n\n\ndef test_obj():\n    assert NoCode() == snapshot()\n    assert [NoCode(), 1] == snapshot([0])\n"),
+               "test_b_numbers.py": "from inline_snapshot import snapshot\n\n\ndef test_num():\n    assert 5 == snapshot()\n    assert 6 == snapshot(7)\n",
+               "test_c_more.py": "from inline_snapshot import snapshot\n\n\ndef test_more():\n    assert [1, 2] == snapshot([1])\n"}
+    for fl in (("create",), ("fix",), ("create", "fix")):
+        progs.append({"source": IMPORTS["test_a_objects.py"], "files": dict(IMPORTS), "flags": fl, "sites": [1, 2, 3], "rich": False})
     outs = pmap(run_all, progs, procs=12, chunksize=1)
     terms = []
     for p, o in zip(progs, outs):
